@@ -9,6 +9,7 @@
 import GojaModel.C16.Lemmas
 import GojaModel.C16.NamesLemmas
 import GojaModel.C16.Clone
+import GojaModel.C16.Scopes
 import GojaModel.Generated.C16_Share
 namespace GojaModel.C16
 
@@ -212,6 +213,30 @@ theorem compiler_contract_gives_hOK (st : Names.St) (rt : Nat) (cs : List Names.
   split
   · next t ht => exact Names.contract_target_own cs v hv hs t (hchain ▸ ht)
   · rfl
+
+/-! ### How the compiler builds the scope chain (Scopes.lean): strictness is inherited inwards -/
+
+/-- Every scope chain the compiler can build — any sequence of newScope (strict copied from the enclosing scope),
+popScope, function prologues (`if !s.strict { s.strict = … }`), class bodies (`s.strict = true`) and eval markings —
+is monotone: a scope is at least as strict as the scope enclosing it. -/
+theorem scope_strictness_monotone (ops : List Scopes.COp) : Scopes.Mono (Scopes.crun [] ops) :=
+  Scopes.mono_run ops [] trivial
+
+/-- Hence an eval compiled in a non-strict scope has a non-strict innermost variable scope (the assumption
+"strictness is inherited inwards" of `compiler_contract_gives_hOK`, discharged). -/
+theorem sloppy_eval_first_var_sloppy (ops : List Scopes.COp) (v : Names.CScope)
+    (hh : Scopes.enclosingStrict (Scopes.crun [] ops) = false) (hv : Names.firstVar (Scopes.crun [] ops) = some v) :
+    v.strict = false :=
+  Scopes.sloppy_eval_first_var_sloppy _ (Scopes.mono_run ops [] trivial) hh v hv
+
+/-- The compiler contract without a strictness hypothesis on the variable scope: whatever scopes the compiler built
+(unbounded `ops`), a direct eval compiled in a NON-STRICT scope — the only case in which the eval'd code declares
+variables in the caller's chain (Tie2.eval_strict_plumbing) — finds, at run time, a target stash that owns a private
+copy of its names map. -/
+theorem eval_var_target_owns_copy (ops : List Scopes.COp) (v : Names.CScope)
+    (hh : Scopes.enclosingStrict (Scopes.crun [] ops) = false) (hv : Names.firstVar (Scopes.crun [] ops) = some v)
+    (t : Names.Stash) (ht : Names.target (Names.rtChain (Names.markEval (Scopes.crun [] ops))) = some t) : t.own = true :=
+  Scopes.eval_var_target_owns_copy ops v hh hv t ht
 
 /-! ### Per-use clones (Clone.lean): regexp literals and tagged templates -/
 
